@@ -59,3 +59,5 @@ for i in sorted(os.listdir(out)):
             json.dump(meta, open(os.path.join(dst, "meta.json"), "w"), indent=1)
     finally:
         subprocess.run(["git", "-C", "/repo", "worktree", "remove", "--force", wt], capture_output=True)
+        # the check regenerated lean/BacVerif/Gen/* from the PATCHED tree: restore the committed tables
+        subprocess.run(["git", "-C", "/verif", "checkout", "--", "lean/BacVerif/Gen"], capture_output=True)
